@@ -15,15 +15,28 @@ package main
 //                        block still decrypts to the same header/body bytes with probability 2^-8k, k =
 //                        non-padding bytes in the last block), the very same message
 //   any                  arbitrary bytes: no expectation beyond the two below
+//
+//   c04.session <key> <pkt> <expect>  <key> <pkt> <expect> …
+//       ONE transport (one loopback connection) for the whole line; before each packet is read the
+//       session's auth key (what the informator's GetAuthKey returns) is set to that step's key. "Matches
+//       the session's auth key" means the key the session has when the packet arrives — after a new key
+//       exchange, a loaded session, SetAuthKey — not the one it had when the transport was made or when the
+//       first packet came. The results of the steps are joined with " ; "; each step is judged as a
+//       c04.route of its own (key, packet, expectation).
 // and for every operation, independent of the expectation: never a panic; an accepted message must
 // be what the specification's receiver (direction 8) recovers from those bytes.
 
 import (
+	"context"
 	"encoding/binary"
 	"fmt"
+	"io"
 	"strings"
+	"time"
 
+	"github.com/xelaj/mtproto/internal/mode"
 	"github.com/xelaj/mtproto/internal/mtproto/messages"
+	"github.com/xelaj/mtproto/internal/transport"
 )
 
 func c04Open(key, pkt []byte) string {
@@ -72,8 +85,106 @@ func c04Exec1(op []string) string {
 			return "bad-op"
 		}
 		return c04Unenc(envTok(op[1]))
+	case "c04.session":
+		if len(op) < 4 || (len(op)-1)%3 != 0 {
+			return "bad-op"
+		}
+		return c04Session(op[1:])
 	}
 	return "bad-op"
+}
+
+// c04Inf is a session whose auth key changes while the transport lives.
+type c04Inf struct{ key []byte }
+
+func (i *c04Inf) GetSessionID() int64  { return 0 }
+func (i *c04Inf) GetSeqNo() int32      { return 0 }
+func (i *c04Inf) GetServerSalt() int64 { return 0 }
+func (i *c04Inf) GetAuthKey() []byte   { return i.key }
+
+// c04Routed prints what ReadMsg returned (as x_envelope.go's envRoute does for its single packet).
+func c04Routed(msg messages.Common, err error) (res string, alive bool) {
+	if err != nil {
+		if code, ok := err.(transport.ErrCode); ok {
+			return fmt.Sprintf("code:%d", int(code)), true
+		}
+		s := err.Error()
+		if !strings.HasPrefix(s, "parsing message") {
+			if strings.HasPrefix(s, "wrong bits of message_id") {
+				return "err:parity2", true
+			}
+			return "err:transport(" + strings.ReplaceAll(s, " ", "_") + ")", false
+		}
+		if strings.Contains(s, "Wrong bits of message_id") || strings.Contains(s, "not equal defined size") {
+			return envUnencErr(err), true
+		}
+		return envOpenErr(err), true
+	}
+	switch m := msg.(type) {
+	case *messages.Encrypted:
+		return "enc " + envShowMsg(envOfEncrypted(m)), true
+	case *messages.Unencrypted:
+		return fmt.Sprintf("unenc mid=%d body=%s", uint64(m.MsgID), showBytes(m.Msg)), true
+	}
+	return "err:unknown-type", true
+}
+
+// c04Session: the steps (key, packet, expectation)* over one transport.ReadMsg loop. The peer sends a packet
+// only when the client is about to read it, so that the key in force at each read is the step's key.
+func c04Session(steps []string) string {
+	next := make(chan []byte)
+	done := make(chan struct{})
+	go func() {
+		defer close(done)
+		conn, err := envListener.Accept()
+		if err != nil {
+			for range next {
+			}
+			return
+		}
+		ann := make([]byte, 4)
+		_, _ = io.ReadFull(conn, ann)
+		for pkt := range next {
+			frame := make([]byte, 4, 4+len(pkt))
+			binary.LittleEndian.PutUint32(frame, uint32(len(pkt)))
+			_, _ = conn.Write(append(frame, pkt...))
+		}
+		_ = conn.Close()
+	}()
+	ctx, cancel := context.WithCancel(context.Background())
+	defer cancel()
+	inf := &c04Inf{}
+	t, err := transport.NewTransport(inf, transport.TCPConnConfig{
+		Ctx: ctx, Host: envListener.Addr().String(), Timeout: 10 * time.Second,
+	}, mode.Intermediate)
+	if err != nil {
+		close(next)
+		<-done
+		return "dial-error:" + err.Error()
+	}
+	defer func() { close(next); t.Close(); <-done }()
+	var outs []string
+	alive := true
+	for i := 0; i+2 < len(steps); i += 3 {
+		if !alive {
+			outs = append(outs, "err:transport(dead)")
+			continue
+		}
+		inf.key = append([]byte{}, envTok(steps[i])...) // the new key is a new value in new memory
+		next <- envTok(steps[i+1])
+		var res string
+		func() {
+			defer func() {
+				if r := recover(); r != nil {
+					res, alive = "panic:"+panicSite(), false
+				}
+			}()
+			msg, err := t.ReadMsg()
+			res, alive = c04Routed(msg, err)
+		}()
+		outs = append(outs, res)
+	}
+	return strings.Join(outs, " ; ")
 }
 
 func c04Unenc(data []byte) string {
@@ -102,6 +213,40 @@ func c04Judge(op []string, out string) string {
 		return "the receive path panics: " + clip(out)
 	}
 	switch op[0] {
+	case "c04.session":
+		if out == "bad-op" {
+			return ""
+		}
+		if strings.HasPrefix(out, "dial-error") {
+			return "loopback transport failed: " + clip(out)
+		}
+		outs := strings.Split(out, " ; ")
+		n := (len(op) - 1) / 3
+		if len(outs) != n {
+			return fmt.Sprintf("a session of %d packets gave %d results", n, len(outs))
+		}
+		var hist []string
+		for i := 0; i < n; i++ {
+			k, p, e := op[1+3*i], op[2+3*i], op[3+3*i]
+			under := "a packet that does not carry the id of any key of this session"
+			if pk := envTok(p); len(pk) >= 8 {
+				for j := 0; j < n; j++ {
+					if string(envSha1(envTok(op[1+3*j]))[12:20]) == string(pk[:8]) {
+						under = "a packet carrying the id of key " + op[1+3*j]
+						break
+					}
+				}
+			}
+			short := outs[i]
+			if len(short) > 60 {
+				short = short[:60] + "…"
+			}
+			hist = append(hist, fmt.Sprintf("%d: session key %s, %s -> %s", i+1, k, under, short))
+			if why := c04Judge([]string{"c04.route", k, p, e}, outs[i]); why != "" {
+				return fmt.Sprintf("packet %d of %d on ONE transport whose session key changes between packets [%s]: %s",
+					i+1, n, strings.Join(hist, " | "), why)
+			}
+		}
 	case "c04.open", "c04.openorig", "c04.route":
 		key, pkt, expect := envTok(op[1]), envTok(op[2]), op[3]
 		res := out
@@ -412,6 +557,10 @@ func c04Gen(g *G) {
 		}
 	}
 
+	// (8) one transport, a session whose auth key changes between packets (see c04.session above): the packet
+	// under the key the session had BEFORE must be refused, the one under the key it has NOW accepted
+	c04GenSessions(g)
+
 	// (7) unencrypted packets: inconsistent length, wrong parity, truncation
 	for _, bl := range []int{0, 4, 20, 60} {
 		mid := r.U64()&^3 | uint64(r.Pick(1, 3))
@@ -442,6 +591,72 @@ func c04Gen(g *G) {
 	}
 	for i := 0; i < g.N(60, 2000); i++ {
 		g.Emit(fmt.Sprintf("c04.udeser %s any", hexD(r.Bytes(r.Intn(64)))), "unenc", "unenc-random")
+	}
+}
+
+func c04GenSessions(g *G) {
+	r := g.R
+	type step struct {
+		key string // the session's key at this packet
+		b   *c04Base
+		pkt []byte // nil: a fresh valid packet under b's key
+		exp string // expectation for an explicit pkt ("refuse" when empty)
+	}
+	fresh := func(b *c04Base) (pkt []byte, exp string) { // another valid message sealed with b's key
+		bl := r.Pick(0, 4, 20, 100)
+		tok := c04BodyTok(g, bl)
+		m := envMsg{Salt: r.U64(), Sid: r.U64(), Mid: r.U64()&^3 | uint64(r.Pick(1, 3)), Seq: uint32(r.U64()), Body: envTok(tok)}
+		return envSeal(8, b.key, m, r.Bytes((16-(32+bl)%16)%16)), c04Expect(m, tok)
+	}
+	emit := func(steps []step, tags ...string) {
+		var toks []string
+		for _, st := range steps {
+			pkt, exp := st.pkt, "refuse"
+			if st.exp != "" {
+				exp = st.exp
+			}
+			if pkt == nil {
+				var okExp string
+				pkt, okExp = fresh(st.b)
+				if st.key == st.b.keyTok {
+					exp = okExp
+				}
+			}
+			toks = append(toks, st.key, hexD(pkt), exp)
+		}
+		g.Emit("c04.session "+strings.Join(toks, " "), append(tags, "session")...)
+	}
+	for rep := 0; rep < g.N(2, 12); rep++ {
+		A, B, C := c04NewBase(g, 20), c04NewBase(g, 4), c04NewBase(g, 0)
+		a, b := A.keyTok, B.keyTok
+		shortKey := fmt.Sprintf("x%d:%d", r.Pick(1, 20, 128, 135), r.U64()>>1)
+		garbage := append(append([]byte{}, envSha1(A.key)[12:20]...), r.Bytes(16+32)...)
+		// the key is replaced: the retired key's packets are refused, the new key's accepted
+		emit([]step{{a, A, nil, ""}, {b, A, nil, ""}, {b, B, nil, ""}}, "session:A,then-B")
+		emit([]step{{a, A, nil, ""}, {a, A, nil, ""}, {b, A, nil, ""}, {b, A, A.pkt, ""}, {b, B, nil, ""}, {b, B, nil, ""}}, "session:A,then-B")
+		// and back again
+		emit([]step{{a, A, nil, ""}, {b, B, nil, ""}, {b, A, nil, ""}, {a, A, nil, ""}, {a, B, nil, ""}}, "session:A,B,A")
+		// the key is lost in between (logged out / not yet exchanged: empty or unusable key)
+		emit([]step{{a, A, nil, ""}, {"-", A, nil, ""}, {"-", A, A.pkt, ""}, {a, A, nil, ""}}, "session:key-emptied")
+		emit([]step{{a, A, nil, ""}, {shortKey, A, nil, ""}, {b, A, nil, ""}, {b, B, nil, ""}}, "session:key-emptied")
+		// no packet at all, an unencrypted one, or only a refused one arrives under the first key
+		emit([]step{{b, A, nil, ""}, {b, B, nil, ""}, {a, A, nil, ""}, {a, B, nil, ""}}, "session:first-packet-foreign")
+		emit([]step{{a, A, c04SpecUnenc(r.U64()&^3|1, r.Bytes(8)), "any"}, {b, A, nil, ""}, {b, B, nil, ""}}, "session:unencrypted-first")
+		emit([]step{{a, A, garbage, "any"}, {b, A, nil, ""}, {b, B, nil, ""}}, "session:refused-first")
+		emit([]step{{"-", A, nil, ""}, {a, A, nil, ""}, {b, A, nil, ""}, {b, B, nil, ""}}, "session:keyless-first")
+		// three keys, random walk
+		bases := []*c04Base{A, B, C}
+		for i := 0; i < g.N(3, 12); i++ {
+			var steps []step
+			cur := bases[r.Intn(3)]
+			for j, n := 0, 3+r.Intn(6); j < n; j++ {
+				if r.Intn(3) == 0 {
+					cur = bases[r.Intn(3)]
+				}
+				steps = append(steps, step{cur.keyTok, bases[r.Intn(3)], nil, ""})
+			}
+			emit(steps, "session:random-walk")
+		}
 	}
 }
 
